@@ -21,6 +21,7 @@ import (
 	"github.com/hyperledger/aries-framework-go/component/storage/leveldb"
 	"github.com/hyperledger/aries-framework-go/component/storageutil/batchedstore"
 	"github.com/hyperledger/aries-framework-go/component/storageutil/cachedstore"
+	"github.com/hyperledger/aries-framework-go/component/storage/edv"
 	"github.com/hyperledger/aries-framework-go/component/storageutil/formattedstore"
 	"github.com/hyperledger/aries-framework-go/component/storageutil/formattedstore/exampleformatters"
 	"github.com/hyperledger/aries-framework-go/component/storageutil/mem"
@@ -110,6 +111,18 @@ func (e *stackEnv) build(n *stackNode, path string) spi.Provider {
 			e.fmts[path] = f
 		}
 		return formattedstore.NewProvider(e.build(n.kids[0], path+".0"), f)
+	case "edet", "enon":
+		// the EDV encrypted formatter (real JWE encrypter / decrypter and MAC from a KMS): the same key-value behaviour as
+		// any other formatter, with deterministic or random document ids
+		if c12Shared == nil {
+			c12SetupReal()
+		}
+		var opts []edv.EncryptedFormatterOption
+		if n.kind == "edet" {
+			opts = append(opts, edv.WithDeterministicDocumentIDs())
+		}
+		return formattedstore.NewProvider(e.build(n.kids[0], path+".0"),
+			edv.NewEncryptedFormatter(c12Shared.enc, c12Shared.dec, c12Shared.mac, opts...))
 	}
 	panic("unknown stack kind " + n.kind)
 }
@@ -454,12 +467,14 @@ var c11Stacks = []string{
 	"batched2(fnon(mem))", "fdet(batched2(mem))", "fnon(cached(mem,mem))",
 	"cached(batched2(cached(mem,mem)),mem)", "batched1(cached(batched5(mem),mem))",
 	"cached(batched3(fdet(mem)),mem)", "batched2(cached(fnon(ldb),mem))", "fdet(cached(batched2(mem),mem))",
+	"edet(mem)", "enon(mem)", "edet(ldb)", "cached(enon(mem),mem)", "batched2(edet(mem))",
 }
 
 // supportsConj: does the stack's query path understand "&&"? (mem does; formattedstore and leveldb parse a
 // single criterion only — the SPI documents the advanced format as optional)
 func c11SupportsConj(stack string) bool {
-	return !strings.Contains(stack, "ldb") && !strings.Contains(stack, "fdet") && !strings.Contains(stack, "fnon")
+	return !strings.Contains(stack, "ldb") && !strings.Contains(stack, "fdet") && !strings.Contains(stack, "fnon") &&
+		!strings.Contains(stack, "edet") && !strings.Contains(stack, "enon")
 }
 
 func c11Gen(r *Rng, tier string) []string {
